@@ -77,7 +77,7 @@ Lemma nested_log : forall body, body_log body ->
   forall h s r o h' s', nested0 E C fault body h s = (r, o, h', s') -> s_txlog s' = s_txlog s.
 Proof.
   intros body HB h s r o h' s' H. unfold nested0 in H.
-  destruct (c_nonest C).
+  destruct (c_nonest C || s_nonest s).
   - destruct (body h s) as [[[r0 l0] h0] s0] eqn:Eb. inversion H; subst. eapply HB; exact Eb.
   - destruct (h_sp E C fault true (NGen (s_gen s)) h (next_gen s)) as [h1 s1] eqn:Es.
     apply h_sp_log in Es. cbn [next_gen s_txlog] in Es.
@@ -91,18 +91,18 @@ Proof.
       apply h_sp_log in Er. inversion H; subst. rewrite Er. destruct (fault _); cbn; congruence.
 Qed.
 
-Lemma nested_cx_log : forall cx body, body_log body ->
-  forall h s r o h' s', nested E C fault cx body h s = (r, o, h', s') -> s_txlog s' = s_txlog s.
+Lemma nested_cx_log : forall cx nn body, body_log body ->
+  forall h s r o h' s', nested E C fault cx nn body h s = (r, o, h', s') -> s_txlog s' = s_txlog s.
 Proof.
-  intros cx body HB h s r o h' s' H. unfold nested in H. destruct cx.
-  - destruct (nested0 E C fault body h (set_dead s false)) as [[[r0 o0] h0] s0] eqn:En.
-    apply (nested_log _ HB) in En. inversion H; subst. exact En.
-  - apply (nested_log _ HB) in H. exact H.
+  intros cx nn body HB h s r o h' s' H. unfold nested in H.
+  destruct (nested0 E C fault body h _) as [[[r0 o0] h0] s0] eqn:En.
+  apply (nested_log _ HB) in En. inversion H; subst.
+  destruct cx, nn; cbn in *; exact En.
 Qed.
 
 Lemma run_body_log : forall p, body_log (run_body E C fault p).
 Proof.
-  induction p as [o | m chk k IHk | chk k IHk | b IHb chk rcv cx k IHk | n k IHk | n k IHk | k IHk];
+  induction p as [o | m chk k IHk | chk k IHk | b IHb chk rcv cx nn k IHk | n k IHk | n k IHk | k IHk];
     intros h s r l h' s' H; cbn [run_body] in H; [| | | | | |apply IHk in H; exact H].
   - destruct o; inversion H; subst; reflexivity.
   - destruct (h_stmt fault (Some m) h s) as [[e n0] s1] eqn:Es. apply h_stmt_log in Es.
@@ -115,8 +115,8 @@ Proof.
     + inversion H; subst. exact Es.
     + destruct (run_body E C fault k h s1) as [[[r0 l0] h0] s0] eqn:Ek. apply IHk in Ek. inversion H; subst; congruence.
     + destruct (run_body E C fault k h s1) as [[[r0 l0] h0] s0] eqn:Ek. apply IHk in Ek. inversion H; subst; congruence.
-  - destruct (nested E C fault cx (run_body E C fault b) h s) as [[[r0 o0] h1] s1] eqn:En.
-    apply (nested_cx_log _ _ IHb) in En.
+  - destruct (nested E C fault cx nn (run_body E C fault b) h s) as [[[r0 o0] h1] s1] eqn:En.
+    apply (nested_cx_log _ _ _ IHb) in En.
     destruct r0 as [|e0|p0].
     + destruct (run_body E C fault k h1 s1) as [[[r1 l1] h2] s2] eqn:Ek. apply IHk in Ek. inversion H; subst; congruence.
     + destruct chk; [inversion H; subst; exact En|].
@@ -139,10 +139,10 @@ Lemma h_end_open : forall c h s tx, s_tx s = Some tx ->
   (add_error h (if fault (length (s_ops s)) then Some fault_err else None),
    mkSt (if c && negb (fault (length (s_ops s))) then work tx else s_db s) None
         ((if c then KCommit else KRollback, fault (length (s_ops s))) :: s_ops s)
-        (s_gen s) (TEnd :: s_txlog s) (s_fl s) (s_dead s)).
+        (s_gen s) (TEnd :: s_txlog s) (s_fl s) (s_dead s) (s_nonest s)).
 Proof.
   intros c h s tx Htx. unfold h_end, tx_end, issue. rewrite hard_commit, andb_false_r.
-  cbn [log_tx s_tx s_ops s_db s_gen s_txlog s_fl s_dead]. rewrite Htx.
+  cbn [log_tx s_tx s_ops s_db s_gen s_txlog s_fl s_dead s_nonest]. rewrite Htx.
   destruct (fault (length (s_ops s))); destruct c; reflexivity.
 Qed.
 Lemma h_end_closed : forall c h s, s_tx s = None ->
